@@ -41,9 +41,56 @@ def run(ctx):
     d2_data_owners(ctx, committer, appenders)         # D3 owners
     d3_commit_follows(ctx, committer, appenders)
     d5_cache(ctx, ctx.repo.cls('Array'), committer)   # D4
+    d4_rewrite_keeps_keys(ctx)
+    from ._shared import opener_branch_agreement
+    opener_branch_agreement(ctx, 'D5')
     d5_tables(ctx)
     d6_names(ctx)
     d7_readme(ctx)
+
+
+def d4_rewrite_keeps_keys(ctx):
+    ui = ctx.repo.func('Array._update_arrayinfo')
+    wr = [n for n, cal in ctx.E.callees(ui) if cal.qualname == 'DataDir._write_jsondict' and isinstance(n, ast.Call)]
+    if not wr:
+        raise AnalysisError('_update_arrayinfo no longer writes the descriptor')
+    d = get_arg(wr[0], 1, 'd')
+    src = d
+    if isinstance(d, ast.Name):
+        ds = [v for v, st in defs_of(ui.node, d.id) if isinstance(st, ast.Assign)]
+        src = ds[0] if len(ds) == 1 else None
+    construct = 'rewrite-keeps-keys'
+    inst = f'_update_arrayinfo rewrites the whole re-read descriptor (all of {sorted(KEYS)} survive an append/truncate)'
+    if src is None:
+        ctx.assume('R-TABLE', 'D1', ui, wr[0], construct, inst, detail='written dictionary has several definitions')
+    elif norm(src) in ('self._arrayinfo', 'dict(self._arrayinfo)', 'self._arrayinfo.copy()', 'self._read_arraydescr()'):
+        ctx.ok('R-TABLE', 'D1', ui, wr[0], construct, inst)
+    elif isinstance(src, ast.DictComp):
+        keep = None
+        for c in ast.walk(src):
+            if isinstance(c, ast.Compare) and isinstance(c.ops[0], ast.In):
+                r = c.comparators[0]
+                try:
+                    keep = set(ast.literal_eval(r))
+                except Exception:
+                    if isinstance(r, ast.Name):
+                        for v, _ in defs_of(ui.node, r.id):
+                            try:
+                                keep = set(ast.literal_eval(v))
+                            except Exception:
+                                pass
+            if isinstance(c, ast.Compare) and isinstance(c.ops[0], ast.NotIn):
+                keep = 'blacklist'
+        if keep == 'blacklist':
+            ctx.assume('R-TABLE', 'D1', ui, wr[0], construct, inst, detail='keys filtered by a blacklist')
+        elif keep is None:
+            ctx.assume('R-TABLE', 'D1', ui, wr[0], construct, inst, detail='filter not evaluable')
+        else:
+            ctx.decide(KEYS - {'shape'} <= keep | {'shape'} and KEYS <= keep | {'shape'}, 'R-TABLE', 'D1', ui, wr[0], construct, inst,
+                       detail=f'the rewrite keeps only {sorted(keep)}: {sorted(KEYS - keep)} vanish from arraydescription.json '
+                              f'after the first append/truncate')
+    else:
+        ctx.assume('R-TABLE', 'D1', ui, wr[0], construct, inst, detail=f'written dictionary is `{norm(src)[:50]}`')
 
 
 def _return_dict(func):
